@@ -82,6 +82,11 @@ def gen_spec(r, seed, deterministic=False):
     if have_param and not any(c.get("use_param") or c["kind"] == "paramcond" for c in conds):
         conds.append({"kind": "paramcond", "weight": 1.0, "model": 0})
     spec["conds"] = conds
+    rz = rnd(seed, "zero-weight")
+    if len(conds) >= 2 and rz.random() < 0.12:
+        # a condition that is only monitored (weight exactly 0): it must still be evaluated once per step -- its
+        # sampler draws from the same stream as everybody else's
+        conds[rz.randrange(len(conds) - 1)]["weight"] = 0.0
     if r.random() < 0.35:
         # several conditions keep the library's default name, or share a user-given one
         nm = r.choice(("default", "default", "same"))
